@@ -103,8 +103,9 @@ def run_ppci(src, limit=None):
     limit = limit or PPCI_LIMIT[0]
     gc_was = gc.isenabled()
     gc.disable()  # gc callbacks (Hypothesis installs one) would swallow the timeout exception
-    old = signal.signal(signal.SIGALRM, _alarm)
-    signal.setitimer(signal.ITIMER_REAL, limit, 1.0)  # repeats, in case one exception is swallowed
+    # CPU time of this process, not wall-clock: a loaded machine must not turn a slow unit into a failure
+    old = signal.signal(signal.SIGPROF, _alarm)
+    signal.setitimer(signal.ITIMER_PROF, limit, 1.0)  # repeats, in case one exception is swallowed
     try:
         toks = []
         for t in pp.process_file(io.StringIO(src), "t.c"):
@@ -122,8 +123,8 @@ def run_ppci(src, limit=None):
         text = getattr(e, "msg", None) or str(e)
         return ("exc", type(e).__name__, frame, str(text)[:200])
     finally:
-        signal.setitimer(signal.ITIMER_REAL, 0)
-        signal.signal(signal.SIGALRM, old)
+        signal.setitimer(signal.ITIMER_PROF, 0)
+        signal.signal(signal.SIGPROF, old)
         if gc_was:
             gc.enable()
 
@@ -687,7 +688,7 @@ def gcc_batch(srcs, names):
 
 def compare(src, gcc, res):
     if res[0] == "timeout":
-        return "ppci did not finish within %d s (gcc and the reference model need milliseconds)   [gcc: %s]" % (PPCI_LIMIT[0], " ".join(gcc)[:300])
+        return "ppci did not finish within %d s of CPU time (gcc and the reference model need milliseconds)   [gcc: %s]" % (PPCI_LIMIT[0], " ".join(gcc)[:300])
     if res[0] == "exc":
         return "ppci raised %s in %s: %s   [gcc: %s]" % (res[1], res[2], res[3], " ".join(gcc)[:300])
     if res[1] != gcc:
